@@ -1258,6 +1258,9 @@ hwloc__groups_by_distances(struct hwloc_topology *topology,
 	  /* res_obj may be NULL on failure to insert. */
 	  if (!res_obj)
 	    failed++;
+	  else if (topology->state & HWLOC_TOPOLOGY_STATE_IS_LOADED)
+	    /* nodesets were already propagated down, children may have inherited more nodes than the grouped objects */
+	    hwloc_obj_add_children_sets(res_obj);
 	  /* or it may be different from groupobjs if we got groups from XML import before grouping */
           groupobjs[i] = res_obj;
       }
